@@ -57,7 +57,7 @@ Definition inscribe_script (prefix ct data : bytes) (enriched : option (list byt
       | Some s =>
         let s := append_opcodes_ign s [OpENDIF] in
         match enriched with
-        | Some (_ :: _ as dd) => append_push_data_array (append_opcodes_ign s [OpRETURN]) dd
+        | Some ((_ :: _) as dd) => append_push_data_array (append_opcodes_ign s [OpRETURN]) dd
         | _ => Some s
         end
       end
